@@ -216,22 +216,48 @@ func analyseMatcherAnswers(c *core.Ctx, inf *types.Info, fd *ast.FuncDecl, specO
 		core.WalkNoFuncLit(n, func(x ast.Node) bool {
 			switch y := x.(type) {
 			case *ast.IndexExpr:
-				if core.ObjOf(inf, y.X) == specObj {
+				so := core.ObjOf(inf, y.X)
+				if b, ok := bind[so]; ok && so != nil {
+					so = core.ObjOf(inf, b) // the helper's spec parameter, bound to the caller's spec
+				}
+				if so == specObj {
 					got |= classifyKey(y.Index, bind)
 				}
 			case *ast.CallExpr:
-				// a helper of the matcher that is handed the spec: both entries count as consulted when the helper itself passes
+				// a helper of the matcher that is handed the spec
 				if hf := core.Callee(inf, y); hf != nil && hf.Pkg() != nil && c.M.InModule(hf.Pkg()) {
-					if hd := c.M.Decl(hf.Origin()); hd != nil && hd != fd && !visiting[hd] && hd.Type.Params != nil {
+					if hd := c.M.Decl(hf.Origin()); hd != nil && hd != fd && !visiting[hd] && hd.Type.Params != nil && hd.Body != nil {
+						nb := map[types.Object]ast.Expr{}
+						passesSpec := false
+						var specParam types.Object
 						k := 0
 						for _, fl := range hd.Type.Params.List {
 							for _, nm := range fl.Names {
-								if k < len(y.Args) && core.ObjOf(inf, y.Args[k]) == specObj {
-									if analyseMatcherAnswers(c, inf, hd, inf.Defs[nm], visiting, report) {
-										got |= wild | lit
+								if k < len(y.Args) {
+									arg := y.Args[k]
+									if ao := core.ObjOf(inf, arg); ao != nil {
+										if b, ok := bind[ao]; ok {
+											arg = b
+										}
+									}
+									nb[inf.Defs[nm]] = arg
+									if core.ObjOf(inf, arg) == specObj {
+										passesSpec = true
+										specParam = inf.Defs[nm]
 									}
 								}
 								k++
+							}
+						}
+						if passesSpec && depth < 3 {
+							// (a) a one-segment helper (the named-function form of the `matches` closure): the lookups of its
+							// leading statement are certain to run, with its parameters bound to the arguments
+							if len(hd.Body.List) > 0 {
+								got |= lookups(hd.Body.List[0], nb, depth+1)
+							}
+							// (b) a helper that consults both entries on its own before any negative answer
+							if got != wild|lit && analyseMatcherAnswers(c, inf, hd, specParam, visiting, false) {
+								got |= wild | lit
 							}
 						}
 					}
